@@ -39,6 +39,8 @@ def run(c):
         totals["histories"] += r["scenarios"]
         totals["lines"] += r["validated_lines"]
         c.guard(comp + "_histories", r["scenarios"])
+        if comp == "lru":
+            c.guard("lru_duels", st.get("lru_duels", 0))
         for rej in r["rejections"]:
             scen = rej["scenario"]
             if mod == "PoolLin" and classify_pool(c, scen):
